@@ -109,9 +109,53 @@ def discharge(ob: Obligation, z3_ms=None):
             except Exception:  # noqa: BLE001
                 pass
         return ("sat", "z3", dt, mv, "")
-    # unknown -> cvc5
+    # unknown -> bounded model search (a model under extra constraints is still a model)
     reason = s.reason_unknown()
-    smt = s.to_smt2()
+    consts = collect_consts(list(ob.pc) + [ob.goal])
+    # (sequence consts are replaced by explicit sequences of fresh elements of a fixed small length)
+    for nlist, nstr in ((2, 1), (1, 1), (3, 1), (2, 2), (0, 1), (1, 2), (3, 2)):
+        subst = []
+        back = {}
+        for name, t in consts.items():
+            if not z3.is_seq(t):
+                continue
+            es = t.sort().basis()
+            if z3.is_seq_sort(es) if hasattr(z3, "is_seq_sort") else isinstance(es, z3.SeqSortRef):
+                elems = [z3.Unit(z3.Int(f"{name}@{i}@0")) if nstr == 1 else z3.Concat(z3.Unit(z3.Int(f"{name}@{i}@0")), z3.Unit(z3.Int(f"{name}@{i}@1"))) for i in range(nlist)]
+                units = [z3.Unit(e) for e in elems]
+                n = nlist
+            elif es == z3.IntSort():
+                units = [z3.Unit(z3.Int(f"{name}@{i}")) for i in range(nstr)]
+                n = nstr
+            else:
+                units = [z3.Unit(z3.Const(f"{name}@{i}", es)) for i in range(nlist)]
+                n = nlist
+            expl = z3.Empty(t.sort()) if n == 0 else (units[0] if n == 1 else z3.Concat(*units))
+            subst.append((t, expl))
+            back[name] = expl
+        if not subst:
+            break
+        sb = z3.Solver()
+        sb.set("timeout", max(2000, z3_ms // 4))
+        for c in ob.pc:
+            sb.add(z3.substitute(c, *subst))
+        sb.add(z3.Not(z3.substitute(ob.goal, *subst)))
+        t0 = time.time()
+        rb = sb.check()
+        dt += time.time() - t0
+        if rb == z3.sat:
+            m = sb.model()
+            mv = {}
+            for name, t in consts.items():
+                if "!" in name and not name.startswith(("ret_", "item", "getitem")):
+                    continue
+                try:
+                    mv[name] = model_value(m, back.get(name, t))
+                except Exception:  # noqa: BLE001
+                    pass
+            return ("sat", "z3-bounded-model", dt, mv, "")
+    # unknown -> cvc5
+    smt = s.to_smt2().replace("seq.nth_i", "seq.nth").replace("seq.nth_u", "seq.nth")
     st, dt2 = run_cvc5(smt)
     if st == "unsat":
         return ("unsat", "cvc5", dt + dt2, None, "")
